@@ -1742,6 +1742,16 @@ impl ExternalSortExec {
                     // Check if current buffer is exhausted
                     if let Some(ref batch) = run_buffers[run_idx] {
                         if run_indices[run_idx] >= batch.num_rows() {
+                            // `output_rows` holds (run, row) references into the
+                            // CURRENT buffers. Resolve them before this run's
+                            // buffer is replaced (or dropped on exhaustion):
+                            // afterwards the same row numbers would address a
+                            // different batch, or nothing at all.
+                            if !output_rows.is_empty() {
+                                let merged = self.build_merged_batch(&run_buffers, &output_rows)?;
+                                result_batches.push(merged);
+                                output_rows.clear();
+                            }
                             // Try to load next batch from this run
                             if let Some(next_batch) = run_iterators[run_idx].next() {
                                 run_buffers[run_idx] = Some(next_batch?);
